@@ -147,11 +147,20 @@ def _do_event(w, ev, model, cfg, rec):
                 _apply_tx(model, t, owned, sent=True)
             elif getattr(t, 'error', None):
                 return w, 'not_pushed'
-        elif kind == 'utxos_update':
+        elif kind in ('utxos_update', 'utxos_update_key'):
             rec.clear()
-            w.utxos_update()
-            # the rescan covers the default account: outputs of other accounts are not touched
-            scanned = set(k.address for k in w.keys() if k.account_id == w.default_account_id or w.scheme == 'single')
+            if kind == 'utxos_update':
+                w.utxos_update()
+                # the rescan covers the default account: outputs of other accounts are not touched
+                scanned = set(k.address for k in w.keys() if k.account_id == w.default_account_id or w.scheme == 'single')
+            else:
+                # the update of ONE key (documented: "key_id: Key ID to just update 1 key"): nothing else is touched
+                keys = [k for k in w.keys(depth=w.key_depth, change=0)] if w.scheme != 'single' else w.keys()
+                if not keys:
+                    return w, 'noop'
+                k = keys[0] if ev[1] == 'first' else keys[-1]
+                w.utxos_update(key_id=k.id)
+                scanned = set()       # a single-key update only adds what the provider reports (rescan_all is off for it)
             for v in model.out.values():
                 if v['address'] in scanned:
                     v['spent'] = True
@@ -182,6 +191,7 @@ def _do_event(w, ev, model, cfg, rec):
             owned |= set(_addresses(w))
             if t.pushed:
                 _apply_tx(model, t, owned, sent=True)
+                model.live = getattr(model, 'live', []) + [t]
             elif kind != 'send_nobc' and getattr(t, 'error', None):
                 return w, 'not_pushed'
         elif kind == 'import_unsent':
@@ -199,6 +209,22 @@ def _do_event(w, ev, model, cfg, rec):
                 if o.address in owned:
                     model.out[(t2.txid, o.output_n)] = {'value': int(o.value), 'address': o.address, 'spent': False,
                                                         'conf': 0}
+        elif kind == 'store_again':
+            # the oldest stored transaction is loaded and stored once more (a refresh): the ledger does not change
+            live = [t for t in getattr(model, 'live', []) if any(x['txid'] == t.txid for x in model.txs)]
+            if not live:
+                return w, 'noop'
+            # the transaction OBJECT the caller still holds from the send (its outputs say "unspent", as they were then)
+            live[0].store()
+            # storing writes the object's view of its own outputs: an output that a rescan had forgotten is learnt again
+            # as unspent - unless a stored sent transaction of the wallet consumes it
+            consumed = set()
+            for x in model.txs:
+                if x['sent']:
+                    consumed.update(x['inputs'])
+            for op, v in model.out.items():
+                if op[0] == live[0].txid and op not in consumed:
+                    v['spent'] = False
         elif kind == 'delete_last':
             if not model.txs:
                 return w, 'noop'
@@ -245,6 +271,7 @@ def _do_event(w, ev, model, cfg, rec):
             else:
                 model.out[op]['conf'] = 7
         elif kind == 'reopen':
+            model.live = []          # objects of the closed wallet are gone with it
             path = w.db_uri
             wh.close(w, None, remove=False)
             w = wh.reopen(path)
@@ -330,7 +357,8 @@ def sub_hist(case):
         for d in devs:
             d['detail']['hist'] = hist
             d['detail']['cfg'] = cfg
-        state = {'model': model.canon(), 'nkeys': len(live['key_balances']), 'caches': [live['balance']]}
+        state = {'model': model.canon(), 'nkeys': len(live['key_balances']), 'caches': [live['balance']],
+                 'held_objects': [t.txid[:8] for t in getattr(model, 'live', [])]}
         return {'devs': devs, 'ret': {'state': state, 'enabled': cfg['events']},
                 'out': labels[-1] if labels else 'init'}
     finally:
@@ -433,11 +461,13 @@ def run(ctx):
     q = ctx.quick
     seed = ctx.seed % 1000
     ev_base = [['utxo_add', 'first', 5000], ['utxo_add', 'last', 100000], ['new_key'], ['send_ext'], ['send_own'],
-               ['sweep'], ['delete_last'], ['reopen'], ['utxos_update'], ['import_unsent'], ['send_nobc'], ['get_key']]
+               ['sweep'], ['delete_last'], ['reopen'], ['utxos_update'], ['import_unsent'], ['send_nobc'], ['get_key'],
+               ['store_again']]
     cfgs = [{'kind': 'hd', 'wt': 'segwit', 'seed': seed, 'events': ev_base}]
     # start from non-initial states too: a wallet already funded through the provider / by hand
     ev_funded = [['send_ext'], ['send_own'], ['sweep'], ['delete_last'], ['delete_funding'], ['utxo_add_spent'],
-                 ['utxos_update'], ['reopen'], ['import_unsent'], ['utxo_add', 'first', 5000]]
+                 ['utxos_update'], ['utxos_update_key', 'first'], ['reopen'], ['import_unsent'], ['utxo_add', 'first', 5000],
+                 ['store_again']]
     cfgs.append({'kind': 'hd', 'wt': 'segwit', 'seed': seed, 'events': ev_funded, 'prefix': [['utxos_update']]})
     cfgs.append({'kind': 'hd', 'wt': 'legacy', 'seed': seed, 'events': ev_funded,
                  'prefix': [['utxo_add', 'first', 100000], ['utxo_add', 'last', 70000]]})
